@@ -1277,6 +1277,13 @@ pub fn templates() -> Vec<History> {
             v.push(base(1, vec![push_n(30, 3), Op::Reparse { col: 0, edit: Edit::Replace(0) }, Op::HoldRunAt { phase: 4 }, Op::Tick { timeout: 0 }, Op::Tick { timeout: 0 }, Op::SlowNotify { ms: 25 }, Op::ReleaseRunNoWait, Op::Sleep { ms: 2 }, Op::Reparse { col: 0, edit: Edit::Replace(if clear { 1 } else { 2 }) }, Op::Tick { timeout: t }, Op::Tick { timeout: 2 }, Op::Tick { timeout: 2 }]));
         }
     }
+    // clone_from across a restart, in both directions, then pushes through the overwritten handles
+    for clear in [false, true] {
+        // handles: [0: old, 1: old] -> restart -> [2: new]; handle 2 becomes a clone of old handle 0 and pushes
+        v.push(base(1, vec![push_n(3, 1), Op::NewInjector, Op::Tick { timeout: 2 }, Op::Restart { clear }, Op::NewInjector, Op::Push { inj: 0, text: 2 }, Op::CloneFromInjector { dst: 2, src: 0 }, Op::PushOld { sel: 2, text: 5 }, Op::PushOld { sel: 2, text: 6 }, Op::Tick { timeout: 2 }, Op::Tick { timeout: 2 }]));
+        // old handle 1 becomes a clone of the new handle 2 and pushes into the current stream
+        v.push(base(1, vec![push_n(3, 1), Op::NewInjector, Op::Tick { timeout: 2 }, Op::Restart { clear }, Op::NewInjector, Op::CloneFromInjector { dst: 1, src: 2 }, Op::Push { inj: 0, text: 7 }, Op::Push { inj: 1, text: 8 }, Op::Tick { timeout: 2 }, Op::Tick { timeout: 2 }]));
+    }
     // 255 / 256 / 257 restarts between two ticks
     for n in [255u16, 256, 257] {
         v.push(base(1, vec![push_n(5, 1), Op::NewInjector, Op::Tick { timeout: 2 }, Op::RestartBurst { n, clear: false }, Op::NewInjector, Op::NewInjector, Op::Push { inj: 0, text: 4 }, Op::Tick { timeout: 2 }, Op::Tick { timeout: 2 }]));
